@@ -1,6 +1,8 @@
 package fiber
 
 import (
+	"reflect"
+
 	"github.com/gofiber/fiber/v3/binder"
 	"github.com/gofiber/utils/v2"
 )
@@ -53,11 +55,21 @@ func (b *Bind) returnErr(err error) error {
 // Struct validation.
 func (b *Bind) validateStruct(out any) error {
 	validator := b.ctx.App().config.StructValidator
-	if validator != nil {
-		return validator.Validate(out)
+	if validator == nil {
+		return nil
 	}
 
-	return nil
+	// Only structs are validated: the binders also fill maps (the idempotency middleware collects the response
+	// headers that way), and struct validators answer with an error to anything that is not a struct.
+	t := reflect.TypeOf(out)
+	for t != nil && t.Kind() == reflect.Pointer {
+		t = t.Elem()
+	}
+	if t == nil || t.Kind() != reflect.Struct {
+		return nil
+	}
+
+	return validator.Validate(out)
 }
 
 // Custom To use custom binders, you have to use this method.
